@@ -265,11 +265,21 @@ def check_event(before, after, ev):
     return None
 
 
+class MissingDict(TraitDict):
+    """a user subclass with a default for absent keys on lookup (like
+    collections.Counter); the mutators behave as on any dict"""
+
+    def __missing__(self, key):
+        return 0
+
+
 class Harness:
     """A live TraitDict in one of the modes plus its recorders."""
 
     def __init__(self, mode, state, bare=False):
         self.mode = mode
+        self.variant = bare if isinstance(bare, str) else None
+        bare = bare is True
         self.bare = bare
         self.rec = Rec()
         self.obs = []
@@ -295,9 +305,10 @@ class Harness:
             self.d.notifiers.append(self.rec)
         else:
             kv, vv = validators(mode)
-            self.d = TraitDict(dict((k, v) for k, v in state),
-                               key_validator=kv, value_validator=vv,
-                               notifiers=[] if bare else [self.rec])
+            cls = MissingDict if self.variant == "missing" else TraitDict
+            self.d = cls(dict((k, v) for k, v in state),
+                         key_validator=kv, value_validator=vv,
+                         notifiers=[] if bare else [self.rec])
         self.n_notifiers = len(self.d.notifiers)
 
     def clear_logs(self):
@@ -474,6 +485,7 @@ def shards(tier):
             out.append({"kind": "depth2", "mode": mode, "chunk": c,
                         "of": nchunks})
     out.append({"kind": "all", "mode": "bare", "chunk": 0, "of": 1})
+    out.append({"kind": "all", "mode": "missing", "chunk": 0, "of": 1})
     return out
 
 
@@ -481,7 +493,9 @@ def run_shard(ctx, shard, tier):
     mode = shard["mode"]
     # "bare": the rejecting validators and no notifier at all
     bare = mode == "bare"
-    mode = "reject" if bare else mode
+    if mode == "missing":
+        bare = "missing"            # (a variant of the "id" mode)
+    mode = "reject" if bare is True else ("id" if bare else mode)
     sts = states(mode)[shard["chunk"]::shard["of"]]
     if shard["kind"] == "all":
         ops = ops_for(mode, tier)
